@@ -26,6 +26,8 @@ def _msgs(gen):
             "struct": gc_.GroupControlMessage(1, gc_.GroupPowerControl.UNCHANGED, gc_.GroupControlMethod.TEMPERATURE,
                                               gc_.GroupSetPointControl(1000)),
             "value": ext.ExtendedMessage(abil.AcAbilityRequest(ac_number=300)),
+            # a wrongly typed field: the encoder fails with an exception type nobody listed (AttributeError)
+            "attr": gc_.GroupControlMessage(1, "on", gc_.GroupControlMethod.UNCHANGED, None),
         }
         request = gs.GroupStatusRequest()
         # an AC status frame with one AC (8 bytes) from the console
@@ -45,6 +47,7 @@ def _msgs(gen):
             "struct": c0.ControlStatusMessage(zc.ZoneControlMessage(
                 [zc.ZoneControlData(1, zc.ZonePowerControl.UNCHANGED, zc.ZoneSetPointControl(100.0))])),
             "value": ext.ExtendedMessage(abil.AcAbilityRequest(ac_number=300)),
+            "attr": c0.ControlStatusMessage(zc.ZoneControlMessage([zc.ZoneControlData(1, "on", None)])),
         }
         request = c0.ControlStatusMessage(zs.ZoneStatusRequest())
         probe = framing.at5_frame(0xB0, 0x80, 1, 0xC0,
@@ -81,7 +84,7 @@ class Scenario(worlds.World):
         self.nsend = 0
         self.used_bad = set()
         self.max_send = params.get("max_send", 2)
-        self.bad_kinds = params.get("bad_kinds", ["struct", "value", "unregistered"])
+        self.bad_kinds = params.get("bad_kinds", ["struct", "value", "unregistered", "attr"])
         self.viol = None
 
         async def on_message(hdr, msg):
@@ -93,7 +96,7 @@ class Scenario(worlds.World):
 
         async def on_connection(*, connected):
             self.note("connected" if connected else "disconnected")
-            if connected:
+            if connected and not params.get("quiet_subscriber"):
                 await self.sock.send(self.request, S.RETRY_CONNECTED)
             if self.raise_on:
                 raise RuntimeError("subscriber failure (connection)")
@@ -315,6 +318,12 @@ def run(tier, seed, part=None):
             res = explorer.explore(SPEC, params, depth, dev, time_cap=cap, seed=seed,
                                    label=f"at{gen}/d{depth}/v{dev}")
             chk.add_explorer(f"at{gen}", SPEC, params, res, {"depth": depth, "deviations": dev})
+        # a client whose connection subscriber does not itself send: whatever is queued is drained by the
+        # connect task alone (a subscriber's own send otherwise absorbs what the drain raises)
+        depth, dev = (4, 1) if tier == "quick" else (6, 1)
+        params = {"gen": gen, "quiet_subscriber": True, "raising": False}
+        res = explorer.explore(SPEC, params, depth, dev, time_cap=cap, seed=seed, label=f"at{gen}/quiet/d{depth}/v{dev}")
+        chk.add_explorer(f"at{gen}/quiet-subscriber", SPEC, params, res, {"depth": depth, "deviations": dev, "quiet_subscriber": True})
     chk.add_audit(SPEC, {"gen": 4}, 3, 1, limit=6000 if tier == "thorough" else 600)
     chk.add_audit(SPEC, {"gen": 5}, 3, 1, limit=6000 if tier == "thorough" else 600)
     return chk.finish()
